@@ -13,7 +13,7 @@ var c02Fees = []uint64{0, 1, 100, 999, 1000, 2500}
 func coreC02(tier string) []RunSpec {
 	var out []RunSpec
 	for fi := range c02Fees {
-		for _, kind := range []string{"melt", "swap", "adversarial", "internal", "mintrace"} {
+		for _, kind := range []string{"melt", "swap", "adversarial", "internal", "mintrace", "stalerelease", "meltpollrace"} {
 			out = append(out, RunSpec{Profile: "core:" + kind, Params: map[string]int{"force": mwKind(kind), "fee": fi}})
 		}
 	}
@@ -67,8 +67,8 @@ func runC02(rc *RunCtx) {
 	if m.forceMeltSat > 0 {
 		rc.Quietly(func() { m.User.Fund("A", 1024) })
 	}
-	// weights:       fund swap melt resolve replay dup race checkstate restore restart clock adv internal rotate mintrace
-	weights := []int{2, 5, 5, 2, 0, 0, 1, 0, 0, 2, 0, 4, 2, 1, 2}
+	// weights:       fund swap melt resolve replay dup race checkstate restore restart clock adv internal rotate mintrace stalerelease meltpollrace
+	weights := []int{2, 5, 5, 2, 0, 0, 1, 0, 0, 2, 0, 4, 2, 1, 2, 1, 2}
 	// a quarter of the random runs additionally inject storage errors into ordinary operations
 	faults := !isForced && T.Chance("cfg.faults", 1, 4)
 	rc.StepLoop(3, 16, func(i int) {
